@@ -2,9 +2,12 @@ package rules
 
 import (
 	"fmt"
+	"go/constant"
+	"go/token"
 	"go/types"
 	"math"
 	"os"
+	"sort"
 	"strings"
 
 	"golang.org/x/tools/go/ssa"
@@ -134,6 +137,69 @@ func ruleC06(c *Ctx) {
 		R.OK(key+":smoothType", pos)
 	} else {
 		R.Bad(key+":smoothType", pos, "prevSmoothType = none", shortKey(st))
+	}
+
+	// C06.7 domain of the square roots and arc cosines
+	R.Rule("C06.7", "no NaN from the centre parameterisation: every math.Sqrt in the arc code is taken of a sum of squares or under a guard that bounds its argument below by a non-negative constant (the radii scale-up under radiiCheck > 1, the centre offset under its radicand > 0), and math.Acos only strictly between the clamps -1 < cos < 1; floating-point rounding of mathematically non-negative quantities cannot reach them", 4)
+	{
+		nDom := 0
+		// the arc code: AbsArcTo, its closures and the module functions it calls (an angle helper may be either)
+		var fns []*ssa.Function
+		seenFn := map[*ssa.Function]bool{}
+		work := []*ssa.Function{abs}
+		for len(work) > 0 {
+			fn := work[len(work)-1]
+			work = work[:len(work)-1]
+			if fn == nil || seenFn[fn] || fn.Blocks == nil || !c.P.FnInModule(fn) {
+				continue
+			}
+			seenFn[fn] = true
+			fns = append(fns, fn)
+			work = append(work, fn.AnonFuncs...)
+			for _, b := range fn.Blocks {
+				for _, ins := range b.Instrs {
+					if ci, ok := ins.(ssa.CallInstruction); ok {
+						if sc := ci.Common().StaticCallee(); sc != nil {
+							work = append(work, sc)
+						}
+					}
+				}
+			}
+		}
+		sort.Slice(fns, func(i, j int) bool { return fns[i].Pos() < fns[j].Pos() })
+		for _, fn := range fns {
+			for _, b := range fn.Blocks {
+				for _, ins := range b.Instrs {
+					call, ok := ins.(*ssa.Call)
+					if !ok {
+						continue
+					}
+					callee := call.Common().StaticCallee()
+					if callee == nil || callee.Pkg == nil || callee.Pkg.Pkg.Path() != "math" || (callee.Name() != "Sqrt" && callee.Name() != "Acos") || len(call.Common().Args) != 1 {
+						continue
+					}
+					nDom++
+					arg := call.Common().Args[0]
+					construct := fmt.Sprintf("%s:domain:%s#%d", key, callee.Name(), nDom)
+					lo, hi := domBounds(b, arg)
+					if callee.Name() == "Sqrt" {
+						ok := ssaSumOfSquares(arg) || (lo != nil && *lo >= 0)
+						if k, isC := arg.(*ssa.Const); isC && k.Value != nil {
+							if f, _ := constant.Float64Val(constant.ToFloat(k.Value)); f >= 0 {
+								ok = true
+							}
+						}
+						R.Check(ok, construct, c.Pos(ins), "argument is a sum of squares, or bounded below by a constant >= 0 by a test that dominates the call", "sqrt of "+arg.String()+" ("+arg.Name()+") without such a test")
+					} else {
+						ok := lo != nil && *lo >= -1 && hi != nil && *hi <= 1
+						R.Check(ok, construct, c.Pos(ins), "-1 <= argument <= 1 by tests that dominate the call", "acos of "+arg.Name()+" outside the clamps")
+					}
+				}
+			}
+		}
+		if nDom == 0 {
+			R.Unknown(key+":domain", pos, "no square root or arc cosine seen in the arc code")
+		}
 	}
 
 	R.Rule("C06.6", "an arc is emitted as at most four cubics: the loop bound n, evaluated in an interval domain over the function's own formula (documented range of the arc cosine, the clamps, the sign-directed full-turn adjustment, ceil of the quotient by pi/2+0.001), lies in [0, 4]", 1)
@@ -360,4 +426,119 @@ func (c *Ctx) checkAtMostFour(r *rend, abs *ssa.Function, pins map[string]*sym.T
 	}
 	iv := ev.evalCases(bound)
 	R.Check(iv.hi <= 4 && iv.lo >= 0, key+":segments.at-most-four", pos, "the number of segments lies in [0, 4] for every finite input", fmt.Sprintf("interval [%g, %g] for %s", iv.lo, iv.hi, shortKey(bound)))
+}
+
+// sumOfSquares: t is x*x, or a sum of such terms (never negative, NaN only from a NaN operand).
+func sumOfSquares(t *sym.Term) bool {
+	if t.Op == "conv" && len(t.Args) == 1 {
+		return sumOfSquares(t.Args[0])
+	}
+	if t.Op != "bin" || len(t.Args) != 2 {
+		return false
+	}
+	switch t.Name {
+	case "*":
+		return sym.Eq(t.Args[0], t.Args[1])
+	case "+":
+		return sumOfSquares(t.Args[0]) && sumOfSquares(t.Args[1])
+	}
+	return false
+}
+
+// ssaSumOfSquares: v is x*x or a sum of such products.
+func ssaSumOfSquares(v ssa.Value) bool {
+	switch x := v.(type) {
+	case *ssa.Convert:
+		return ssaSumOfSquares(x.X)
+	case *ssa.BinOp:
+		switch x.Op {
+		case token.MUL:
+			return x.X == x.Y
+		case token.ADD:
+			return ssaSumOfSquares(x.X) && ssaSumOfSquares(x.Y)
+		}
+	}
+	return false
+}
+
+// domBounds returns the constant bounds of v that hold in block b because of comparisons of v with constants on
+// branches that dominate b (v > k taken, v <= k not taken, ...). NaN fails every comparison: a bound obtained from a
+// branch *not* taken does not exclude NaN, which is propagated, not produced, by the guarded call.
+func domBounds(b *ssa.BasicBlock, v ssa.Value) (lo, hi *float64) {
+	setLo := func(f float64) {
+		if lo == nil || f > *lo {
+			lo = &f
+		}
+	}
+	setHi := func(f float64) {
+		if hi == nil || f < *hi {
+			hi = &f
+		}
+	}
+	for d := b; d != nil && d.Idom() != nil; d = d.Idom() {
+		id := d.Idom()
+		if len(id.Instrs) == 0 {
+			continue
+		}
+		iff, ok := id.Instrs[len(id.Instrs)-1].(*ssa.If)
+		if !ok {
+			continue
+		}
+		var taken bool
+		switch {
+		case id.Succs[0] == d && len(d.Preds) == 1:
+			taken = true
+		case id.Succs[1] == d && len(d.Preds) == 1:
+			taken = false
+		default:
+			continue
+		}
+		cmp, ok := iff.Cond.(*ssa.BinOp)
+		if !ok {
+			continue
+		}
+		op := cmp.Op
+		var k *ssa.Const
+		switch {
+		case cmp.X == v:
+			k, _ = cmp.Y.(*ssa.Const)
+		case cmp.Y == v:
+			k, _ = cmp.X.(*ssa.Const)
+			switch op { // k op v  ==  v op' k
+			case token.LSS:
+				op = token.GTR
+			case token.LEQ:
+				op = token.GEQ
+			case token.GTR:
+				op = token.LSS
+			case token.GEQ:
+				op = token.LEQ
+			}
+		}
+		if k == nil || k.Value == nil {
+			continue
+		}
+		f, _ := constant.Float64Val(constant.ToFloat(k.Value))
+		if !taken {
+			switch op { // not(v op k)
+			case token.LSS:
+				op = token.GEQ
+			case token.LEQ:
+				op = token.GTR
+			case token.GTR:
+				op = token.LEQ
+			case token.GEQ:
+				op = token.LSS
+			default:
+				continue
+			}
+		}
+		switch op {
+		case token.GTR, token.GEQ:
+			setLo(f)
+		case token.LSS, token.LEQ:
+			setHi(f)
+		}
+	}
+	return
 }
